@@ -231,7 +231,14 @@ func dedup(xs []string) []string {
 }
 
 // Expressions returns the expression sources of the tier, smallest first.
-func Expressions(tier string) []string {
+func Expressions(tier string) []string { return expressions(tier, true) }
+
+// ExpressionShapes is Expressions without the operator-pair cross product and
+// the depth-3 operator chains, which only matter for precedence (C27), not for
+// the variety of node kinds and fields (C28).
+func ExpressionShapes(tier string) []string { return expressions(tier, false) }
+
+func expressions(tier string, precedence bool) []string {
 	eps, tps := exprProductions(), typeProductions()
 	var out []string
 	// depth 0
@@ -294,6 +301,9 @@ func Expressions(tier string) []string {
 				out = append(out, fillOne(p.src, h, t1)...)
 			}
 		}
+	}
+	if !precedence {
+		return dedup(out)
 	}
 	// depth 2: operators of every precedence on both sides of every binary operator
 	for _, b := range binaryOps {
